@@ -123,6 +123,9 @@ type c05GrpcResult struct {
 	faults             int64
 	profile            string
 	lastFailureAgo     time.Duration
+	// desync: the recorded pairing-desync state (the client holds the
+	// server's key, the server does not hold the client's): permanent.
+	desync bool
 	relayQuiet         time.Duration
 	rep                map[string]any
 }
@@ -374,6 +377,7 @@ func c05GrpcSession(seed int64, deadline time.Duration) *c05GrpcResult {
 		}
 	}
 	res.completed = unaryDone.Load() && streamDone.Load()
+	res.desync = !res.completed && cl.CD.RemoteKey() != nil && s.CD.RemoteKey() == nil
 	el := time.Since(t0)
 	res.lastFailureAgo = -1
 	if lf := lastFail.Load(); lf > 0 {
@@ -415,11 +419,17 @@ func runC05Grpc(c *mon.Case) {
 			if r.safety != "" {
 				c.Shard.Violate("grpc|wrong-reply", r.safety, r.rep)
 			}
-			if !r.completed && r.safety == "" {
+			if r.desync && r.safety == "" {
+				// The state is permanent (the two never meet again): no
+				// point in repeating the session with a longer allowance.
+				c.Shard.Violate("pairing-desync", fmt.Sprintf("gRPC session: the client completed the first handshake and moved to the key-derived rendezvous, the server did not complete it (act three lost or late) and stays on the passphrase rendezvous: %s", r.progress), r.rep)
+			} else if !r.completed && r.safety == "" {
 				r2 := c05GrpcSession(seed, 300*time.Second)
 				switch {
 				case r2.safety != "":
 					c.Shard.Violate("grpc|wrong-reply", r2.safety, r2.rep)
+				case r2.desync:
+					c.Shard.Violate("pairing-desync", fmt.Sprintf("gRPC session (reproduced run): the client completed the first handshake and moved to the key-derived rendezvous, the server did not complete it and stays on the passphrase rendezvous: %s", r2.progress), r2.rep)
 				case r2.completed:
 					c.Shard.Inconc(fmt.Sprintf("gRPC session seed %d missed its 150 s deadline once but completed on the re-run (load)", seed))
 				case r2.lastFailureAgo < 0 || r2.lastFailureAgo > 90*time.Second:
